@@ -101,7 +101,11 @@ def geom_attrs(nd):
         if g and (g[0] or g[1]):
             a += [("x", g[0]), ("y", g[1])]
     elif t == "svg":
-        a = [("x", g[0]), ("y", g[1]), ("width", g[2]), ("height", g[3])]
+        a = [("x", g[0]), ("y", g[1])]
+        if g[2] >= 0:
+            a.append(("width", g[2]))
+        if g[3] >= 0:
+            a.append(("height", g[3]))
         if g[4]:
             a.append(("viewBox", " ".join(str(x) for x in g[4])))
         if g[5]:
